@@ -929,6 +929,11 @@ def inline_helper_call(ctx: Ctx, f: Func, expr: Optional[ast.AST], depth: int = 
         env_ = single_env(m.node)
         if len(rets) == 1 and isinstance(rets[0].value, ast.Name) and rets[0].value.id in env_ and rets[0].value.id not in m.params and isinstance(env_[rets[0].value.id], ast.Call) and body and body[-1] is rets[0]:
             ret_value = env_[rets[0].value.id]
+        elif len(rets) == 1 and body and body[-1] is rets[0] and rets[0].value is not None and all(isinstance(st, (ast.Assign, ast.AnnAssign)) and isinstance(st.targets[0] if isinstance(st, ast.Assign) else st.target, ast.Name) and getattr(st, "value", None) is not None for st in body[:-1]):
+            # `k = {...}; return C(line, **k)`: locals bound once by plain assignments are written into the returned expression
+            locs = {(st.targets[0] if isinstance(st, ast.Assign) else st.target).id: st.value for st in body[:-1]}
+            if all(k in env_ for k in locs) and not (set(locs) & set(m.params)):
+                ret_value = _SubstMany({k: v for k, v in locs.items()}).visit(clone(rets[0].value))
     if ret_value is None:
         return expr
     binding = bind_call(m, expr, bound=m.parent is None)
